@@ -81,6 +81,7 @@ def run(chk: Check) -> None:
     for a in pf.writes + pf.reads:
         chk.functions.add(a.f.qualname)
     _coverage(chk, schema, pf, msgs)
+    _write_paths(chk, schema, pf, msgs)
     _writer_agreement(chk, schema, pf, msgs)
     _reader_agreement(chk, schema, pf, msgs)
     _enums(chk, schema, pf)
@@ -91,6 +92,10 @@ def run(chk: Check) -> None:
     _typestate(sub, chk.repo.cls("AuxData"))
     _to_protobuf(sub, chk.repo.cls("AuxData"))
     chk.adopt(sub, None, "R02.2")
+    from .c01 import _falsy
+    sub = chk.sub()
+    _falsy(sub, chk.repo, schema)
+    chk.adopt(sub, lambda o: "truthiness" in o.construct, "R02.3")
 
 
 # ---------------------------------------------------------------------------
@@ -805,3 +810,99 @@ def _header(chk: Check) -> None:
     mg = ir.module.assigns.get("GTIRB_MAGIC_CHARS")
     chk.ob("R02.5", "GTIRB_MAGIC_CHARS", isinstance(mg, ast.Constant) and mg.value == b"GTIRB",
            ir.module.relpath + ":1", "GTIRB_MAGIC_CHARS must be b'GTIRB'", 1)
+
+
+def _paths_of(e: ast.AST) -> Set[Tuple[str, ...]]:
+    out: Set[Tuple[str, ...]] = set()
+    for n in ast.walk(e):
+        if isinstance(n, (ast.Attribute, ast.Name)):
+            p = attr_path(n)
+            if p:
+                out.add(p)
+    return out
+
+
+def _write_paths(chk: Check, schema: Schema, pf: ProtoFlow, msgs: List[str]) -> None:
+    """R02.1 (paths): a field that a writer assigns at all is assigned on every path that
+    produces the message, except on the outcome of a test about the very attribute it is
+    written from (optional values) or, for a oneof, about any alternative's source."""
+    by_func: Dict[str, List[Access]] = {}
+    for w in pf.writes:
+        if w.msg in msgs and w.how not in ("clear",):
+            by_func.setdefault(w.f.qualname, []).append(w)
+    n = 0
+    for fq, ws in sorted(by_func.items()):
+        f = ws[0].f
+        cfg = CFG(f.node)
+        al = local_aliases(f.node)
+        groups: Dict[Tuple[str, str, str], List[Access]] = {}
+        for w in ws:
+            fld = schema.messages[w.msg].fields[w.field]
+            base = unparse(w.base) if w.base is not None else "?"
+            # sub-message writes (x.label.type = ..) belong to the field they fill
+            gname = "oneof:" + fld.oneof if fld.oneof else w.field
+            groups.setdefault((w.msg, gname, base), []).append(w)
+        for (m, gname, base), gws in sorted(groups.items()):
+            nodes = {cfg.node_of(w.node) for w in gws}
+            # region: the loop iteration that creates the message object, else the function
+            src, dst = cfg.entry, cfg.exit
+            cur = getattr(gws[0].node, "_parent", None)
+            root = gws[0].base
+            while isinstance(root, (ast.Attribute, ast.Subscript)):
+                root = root.value
+            bname = root.id if isinstance(root, ast.Name) else None
+            while cur is not None and cur is not f.node:
+                if isinstance(cur, ast.For) and bname is not None and any(
+                        isinstance(x, (ast.Assign, ast.AnnAssign)) and any(
+                            isinstance(t, ast.Name) and t.id == bname
+                            for t in (x.targets if isinstance(x, ast.Assign) else [x.target]))
+                        for x in ast.walk(cur)):
+                    head = cfg.by_ast[id(cur)]
+                    bi = [s_ for s_ in cfg.g.successors(head)
+                          if cfg.info[s_].kind == "branch" and cfg.info[s_].value]
+                    src, dst = bi[0], head
+                    break
+                cur = getattr(cur, "_parent", None)
+            # a write inside an inner loop is reached whenever that loop is (zero iterations =
+            # empty source collection): the loop head stands for it
+            for w in gws:
+                up = getattr(w.node, "_parent", None)
+                while up is not None and up is not f.node:
+                    if isinstance(up, (ast.For, ast.While)) and id(up) in cfg.by_ast and \
+                            cfg.by_ast[id(up)] != dst:
+                        nodes.add(cfg.by_ast[id(up)])
+                    up = getattr(up, "_parent", None)
+            # excuses: outcomes of tests about the source of the written value
+            sources: Set[Tuple[str, ...]] = set()
+            for w in gws:
+                if w.value is not None:
+                    v = w.value
+                    if isinstance(v, ast.Name) and v.id in al:
+                        v = al[v.id]
+                    sources |= _paths_of(v)
+                if w.how == "sub":
+                    for w2 in ws:
+                        if w2.value is not None and cfg.node_of(w2.node) == cfg.node_of(w.node):
+                            sources |= _paths_of(w2.value)
+            sources = {p for p in sources if p not in (("self",), ("cls",)) and len(p) >= 1}
+            excused: Set[int] = set()
+            for tn, i in cfg.info.items():
+                if i.kind != "test" or i.ast is None:
+                    continue
+                tps = _paths_of(i.ast)
+                tps = {p for p in tps if p not in (("self",), ("cls",), ("isinstance",))}
+                related = any(any(sp[:len(tp)] == tp for sp in sources) for tp in tps if len(tp) >= 1
+                              and not (len(tp) == 1 and tp[0] in ("self",)))
+                if related:
+                    for b in cfg.g.successors(tn):
+                        if cfg.info[b].kind == "branch":
+                            excused.add(b)
+            # only the outcome that does NOT lead to the write is an excuse
+            excused = {b for b in excused if not any(nd in cfg.reachable(b, {dst}) for nd in nodes)}
+            wit = cfg.path_avoiding(src, dst, nodes | excused)
+            n += 1
+            chk.ob("R02.1", "%s.%s@%s:on-every-path" % (m, gname, fq), wit is None, gws[0].loc,
+                   "%s writes %s.%s only on some paths: on the path %s the field keeps its default "
+                   "although nothing about its source value was tested"
+                   % (fq, m, gname, " -> ".join(cfg.describe_path(wit)) if wit else "-"), 3)
+    chk.floor("R02.1", "field groups checked for path coverage", n, 55)
